@@ -64,8 +64,11 @@ def run(ck):
           modes=["Shared"], inv=["HostFreshAfterIter"])
     model(ck, "deviation:BLOCKS_SPLIT_FEATURE_AXIS", 2, [2], [ATTRS], [ATTRS], dev=["BLOCKS_SPLIT_FEATURE_AXIS"],
           expect_violation=True, export=False)
-    if quick and len(recs) > 70:
-        recs = rng.sample(recs, 70)
+    ck.extra["behaviours_exported"] = len(recs)
+    limit = 70 if quick else 1200
+    if len(recs) > limit:
+        # TLC checks every schedule; the implementation is driven along a seeded sample of them
+        recs = rng.sample(recs, limit)
     for rec in recs:
         replay(ck, em, rec, rng)
 
